@@ -14,5 +14,6 @@ func TestCheck(t *testing.T) {
 	rt.Rapid(e, "dup-unmarshal", 150_000, 1_500_000, genDup, RunDup)
 	rt.Rapid(e, "utf8-unmarshal", 80_000, 800_000, genUTF8, RunUTF8)
 	rt.Rapid(e, "marshal", 80_000, 800_000, genMarshal, RunMarshal)
+	rt.Rapid(e, "wide", 30_000, 300_000, genWide, RunWide)
 	rt.Enum(e, "catalogue", func(yield func(DupCase) bool) { enumCatalogue(e, yield) }, RunDup)
 }
